@@ -86,6 +86,32 @@ def json_backend(repo):
                                "nothing in load_calibrator_state / restore_from_checkpoint compares the counters of "
                                "calibration_params.json with the lengths of the restored arrays: a mixture loads silently")),
                            fkey, None if ok else {"new_files": done, "old_files": pending}))
+    # ---- FIRST save into an empty folder (no previous checkpoint to mix with): for every prefix "files `done`
+    #      complete, file f partially written (any byte prefix), the rest not yet created" the restore must FAIL.
+    #      It does iff load opens a file that does not exist yet, or the partial file cannot be parsed.  Assumed reader
+    #      contracts: a strict prefix of a JSON object / pickle / HDF5 file raises on load; a strict prefix of a CSV
+    #      table MAY parse (fewer rows) - so a CSV may only be cut while another required file is still missing.
+    lf = repo.get_function(f"{JP}::load_calibrator_state")
+    read = set()
+    if lf is not None:
+        for node in ast.walk(lf[2]):
+            if isinstance(node, ast.Constant) and isinstance(node.value, str) and \
+                    re.fullmatch(r"[\w.]+\.(json|csv|pickle|h5)", node.value):
+                read.add(node.value)
+    if lf is None or not read:
+        groups.append(_grp("json-backend/first-save/files-read-by-load", "unknown", "load function / its files not recognised", fkey))
+        return groups
+    for k, f in enumerate(files):
+        later_required = [g for g in files[k + 1:] if g in read]
+        cut_parses = f.endswith(".csv")
+        ok = bool(later_required) or not cut_parses or f not in read
+        groups.append(_grp(f"json-backend/first-save/crash-in[{f}]", "proved" if ok else "refuted",
+                           (f"files {files[:k]} complete, {f} cut at any byte, {files[k + 1:]} not created: "
+                            + (f"load fails on the missing {later_required[0]}" if later_required else
+                               ("a cut JSON / pickle / HDF5 file raises on load" if not cut_parses else
+                                "a CSV table cut at a line end parses with fewer rows and every other file is "
+                                "complete: the restore succeeds with a truncated history"))),
+                           fkey, None if ok else {"complete": files[:k], "cut": f}))
     return groups
 
 
